@@ -14,12 +14,6 @@ func VerifBindDefaultApp(p *Protocol) *Protocol { p.app = defaultApp; return p }
 // VerifResetFilters clears the package-level filter registry.
 func VerifResetFilters() { defaultApp.allFilters = &filters{} }
 
-// VerifSetMsgID presets the process-wide request id counter.
-func VerifSetMsgID(v int32) { atomic.StoreInt32(&msgID, v) }
-
-// VerifMsgID reads the counter.
-func VerifMsgID() int32 { return atomic.LoadInt32(&msgID) }
-
 // VerifQueueLen is the proxy's in-flight call counter.
 func (s *ServantProxy) VerifQueueLen() int32 { return atomic.LoadInt32(&s.queueLen) }
 
